@@ -68,6 +68,15 @@ class C07(Prop):
             if i % 7 == 3:
                 yield self._real_case(rng)
                 continue
+            if i % 9 == 4:
+                v = VERDICTS + ["exc", "weird"]
+                lines = [cfg_line(rng.choice(GATES), False, 5, 60_000_000, True, TTL)]
+                for _ in range(rng.choice([1, 2, 3])):
+                    lines.append(self._reenter_line(rng.choice(GATES), rng.random() < 0.7, rng.choice("ea"), rng.choice([1, 1, 2, 3]),
+                                                    rng.randrange(20, 40), rng.choice(v), rng.choice(v),
+                                                    rng.randrange(40, 60), rng.choice(v), rng.choice(v)))
+                yield {"lines": lines, "note": "re-entrant agents (search only)"}
+                continue
             budget = rng.choice(BUDGETS) if rng.random() < 0.45 else None
             lines = [cfg_line(gate, breaker, rng.choice([1, 2, 3, 5]), rng.choice([0, 1_000_000, 60_000_000]), cache, ttl,
                               budget)]
@@ -146,6 +155,16 @@ class C07(Prop):
                                     "note": "exhaustive gate x budget: the shared store runs dry"})
         spaces.append({"name": "all 6 gate logics x 9 small budgets (0..200 ATP) x 5 scripted behaviours, three "
                                "distinct prompts and a repeat", "cases": drained})
+        nest = []
+        for g in GATES:
+            for where in "ea":
+                for za, ya in itertools.product(VERDICTS + ["exc"], repeat=2):
+                    nest.append({"lines": [self._reenter_line(g, True, where, 1, 31, za, ya, 32, zb, yb)
+                                           for (zb, yb) in (("EXECUTE", "PERMIT"), ("BLOCK", "BLOCK"), ("FAILURE", "DEFER"))],
+                                 "note": "re-entrant agents (search only)"})
+        spaces.append({"name": "search only (outside the model): request A (6 gate logics x 7 x 7 verdicts) during which the "
+                               "executor / assessor stub issues a nested request B (3 verdict pairs) on the same loop",
+                       "cases": nest})
         if tier == "thorough":
             more = []
             for g in GATES:
@@ -170,6 +189,9 @@ class C07(Prop):
             if t[0] == "cfg" and len(t) in (7, 8, 9):
                 gate, cache_on = (t[1] if t[1] in GATES else "and"), t[5] == "1"
                 orig = {}
+                continue
+            if t[0] == "reenter" and isinstance(actual[idx], dict):
+                self._oracle_reenter(actual[idx], idx, out)
                 continue
             if t[0] != "run" or len(t) != 4 or raw == "bad-op":
                 continue
@@ -212,6 +234,32 @@ class C07(Prop):
                 if o.issuer != "assessor":
                     out.append(Violation("token_names_assessor", "issuer=assessor", raw, idx))
         return out
+
+    def _oracle_reenter(self, info, idx, out):
+        """every reply of a nest of overlapping requests is judged by the verdicts ITS OWN agents returned for it"""
+        for k, r in enumerate(info["reqs"]):
+            rep = r["reply"]
+            tag = f"request {k} (prompt {r['p']}, executor={r['z']}, assessor={r['y']}) -> {rep}"
+            if rep is None:
+                continue                 # never issued (the agent that would have re-entered was not reached)
+            if isinstance(rep, str):
+                out.append(Violation("reentrant_run_returns_a_result", "a LoopResult", tag, idx))
+                continue
+            if rep["cached"] or rep["action"] == "CIRCUIT_OPEN":
+                continue
+            if not rep["blocked"] and not criterion(info["gate"], r["z"], r["y"]):
+                out.append(Violation("unblocked_only_if_own_verdicts_satisfy_gate",
+                                     f"blocked under {info['gate']}", tag, idx))
+            if rep["token"]:
+                if r["y"] != "PERMIT":
+                    out.append(Violation("token_only_if_own_assessor_permitted", "no token", tag, idx))
+                if not rep["hash_ok"]:
+                    out.append(Violation("token_bound_to_this_request", "sha256 of this prompt", tag, idx))
+                if not rep["issuer_ok"]:
+                    out.append(Violation("token_names_assessor", "issuer=assessor", tag, idx))
+
+    def _reenter_line(self, gate, cache, where, depth, pa, za, ya, pb, zb, yb):
+        return f"reenter {gate} {1 if cache else 0} {where} {depth} {pa} {za} {ya} {pb} {zb} {yb}"
 
     def nontrivial(self, case, obs):
         return sum(1 for l in case["lines"] if l.startswith("run")) >= 2
